@@ -5,7 +5,8 @@ From KM Require Import Model.Storage Proofs.Storage Model.PwCache Proofs.PwCache
 Import ListNotations.
 Open Scope Z_scope.
 
-(* After ANY history (logins, servers going down / erroring / up, password changes, clock,
+(* After ANY history (logins here and at another keymaster instance that shares the primary
+   database, servers going down / erroring / up, password changes, clock,
    primary outages, copies, and tampering that may put any record that ever existed or any
    forged record into any slot of either store with any expiration column), a login of u with
    pw is accepted only if
@@ -13,7 +14,9 @@ Open Scope Z_scope.
      - no server answered and the store that answers holds, in u's slot, an unexpired row whose
        record is genuinely signed, has subject u, is the hash of pw, has a signed expiry in the
        future, and was written by an earlier directory-confirmed login of u with pw less than
-       96 hours ago. *)
+       96 hours ago ([confirmed]: the history splits as pre ++ o :: post with o a login of (u, pw) -
+       here or at the other instance - at which a replica was up, the directory accepted, and the
+       clock read the record's not-before). *)
 Theorem c07_accept_sound : forall n ops u pw,
   let s := prun n ops in
   snd (login s u pw) = true ->
@@ -121,6 +124,65 @@ Theorem c07_outage_login_pure : forall s u pw, ~ In SUp (servers s) -> fst (logi
 Proof. exact outage_login_pure. Qed.
 Print Assumptions c07_outage_login_pure.
 
+(* The cache database only fills outages OF THE PRIMARY: which store a read takes its row from is
+   a function of the primary's CURRENT mode (Model.Storage.read_source) - no memory of earlier
+   failures.  After every history, including those in which earlier reads of the primary timed out
+   or failed, once the primary answers the local cache database has no say: replace its content by
+   anything, the verdict of a login is the same ... *)
+Theorem c07_cache_only_while_primary_silent : forall n ops c u pw,
+  pmode (st (prun n ops)) = Up ->
+  snd (login (with_cache_db (prun n ops) c) u pw) = snd (login (prun n ops) u pw).
+Proof. exact cache_only_while_primary_silent. Qed.
+Print Assumptions c07_cache_only_while_primary_silent.
+
+(* ... (in any state, and what the login leaves in the primary is the same too) ... *)
+Theorem c07_cache_silent_while_primary_answers : forall s c u pw, pmode (st s) = Up ->
+  snd (login (with_cache_db s c) u pw) = snd (login s u pw) /\
+  primary (st (fst (login (with_cache_db s c) u pw))) = primary (st (fst (login s u pw))).
+Proof. exact cache_silent_while_primary_answers. Qed.
+Print Assumptions c07_cache_silent_while_primary_answers.
+
+(* ... and the verdict follows the primary's CURRENT row: no replica answers, the primary does - a
+   login is accepted only if the primary holds, now, an unexpired row of this user whose record is
+   genuine, inside its signed window, signed for this user and the hash of this password.  So a hash
+   that another instance has evicted from the shared primary (the directory rejected it there) does
+   not decide here, and a hash another instance has refreshed there does. *)
+Theorem c07_primary_row_decides : forall s u pw,
+  pmode (st s) = Up -> ~ In SUp (servers s) -> snd (login s u pw) = true ->
+  exists r j, aget skey_eqb (u, pw_type) (signed (primary (st s))) = Some r /\ now (st s) < sr_exp r /\
+    nth_error (jwss s) (N.to_nat (sr_data r)) = Some j /\
+    j_genuine j = true /\ j_sub j = u /\ j_pw j = pw /\ j_nbf j <= now (st s) < j_exp j.
+Proof. exact primary_row_decides. Qed.
+Print Assumptions c07_primary_row_decides.
+
+Theorem c07_evicted_in_primary_refused : forall s u pw,
+  pmode (st s) = Up -> ~ In SUp (servers s) ->
+  aget skey_eqb (u, pw_type) (signed (primary (st s))) = None -> snd (login s u pw) = false.
+Proof. exact evicted_in_primary_refused. Qed.
+Print Assumptions c07_evicted_in_primary_refused.
+
+(* A variant that remembers a timed-out read and keeps reading the cache database for 30 s although
+   the primary answers again (Proofs.PwCache.pstep_sticky, NOT the code) is refuted: after one
+   hanging read, the other instance's eviction (resp. refresh) in the shared primary is ignored, and
+   during the following directory outage the evicted password is accepted (resp. the password the
+   directory confirmed last is refused) while the primary answers. *)
+Theorem c07_sticky_fallback_refuted :
+  let ops := removelast sticky_history in
+  pmode (st (prun 1 ops)) = Up /\ ~ In SUp (servers (prun 1 ops)) /\
+  aget skey_eqb (1%N, pw_type) (signed (primary (st (prun 1 ops)))) = None /\
+  snd (pstep_sticky (prun_sticky 1 ops) (Login 1 7)) = Some true /\
+  snd (pstep (prun 1 ops) (Login 1 7)) = Some false.
+Proof. exact sticky_fallback_refuted. Qed.
+Print Assumptions c07_sticky_fallback_refuted.
+
+Theorem c07_sticky_fallback_refresh_refuted :
+  snd (pstep (prun 1 sticky_history2) (Login 1 8)) = Some true /\
+  snd (pstep (prun 1 sticky_history2) (Login 1 7)) = Some false /\
+  snd (pstep_sticky (prun_sticky 1 sticky_history2) (Login 1 8)) = Some false /\
+  snd (pstep_sticky (prun_sticky 1 sticky_history2) (Login 1 7)) = Some true.
+Proof. exact sticky_fallback_refuted2. Qed.
+Print Assumptions c07_sticky_fallback_refresh_refuted.
+
 (* invariant: every genuinely signed record that exists was written by a directory-confirmed
    login of its subject, carries a 96 h signed lifetime, and is not from the future *)
 Theorem c07_rows_confirmed : forall n ops id j,
@@ -171,6 +233,31 @@ Theorem c07_diag_sensitive_masked_by_second_pattern :
   snd (pstep_ad (prun_ad2 1 1 ops) (Login 1 7)) = Some false.
 Proof. exact ad_masked_by_second_pattern. Qed.
 Print Assumptions c07_diag_sensitive_masked_by_second_pattern.
+
+(* ---- the code before the repair (fixed: CheckLDAPUserPassword tested the error TEXT for the words
+   "Invalid Credentials" instead of the result code).  A replica that answers binds with another
+   result code and a diagnostic mentioning those words was taken for a refusing directory: with a
+   healthy second replica that accepts, the right (cached) password is rejected and its hash evicted -
+   the verdict is not the directory's although a server answers; with no healthy replica the hash that
+   should fill the outage is evicted.  The repaired machine ([pstep], result code only) accepts in
+   both situations. *)
+Theorem c07_old_text_test_refuted :
+  let ops := removelast misleading_history in
+  In SUp (servers (prun 2 ops)) /\ dir_accepts (prun 2 ops) 1 7 = true /\
+  snd (pstep_text (prun_text 2 ops) (Login 1 7)) = Some false /\
+  aget skey_eqb (1%N, pw_type) (signed (primary (st (fst (pstep_text (prun_text 2 ops) (Login 1 7)))))) = None /\
+  snd (pstep (prun 2 ops) (Login 1 7)) = Some true /\
+  snd (pstep (prun 1 ops) (Login 1 7)) = Some true /\
+  snd (pstep_text (prun_text 1 ops) (Login 1 7)) = Some false /\
+  aget skey_eqb (1%N, pw_type) (signed (cache (st (fst (pstep_text (prun_text 1 ops) (Login 1 7)))))) = None.
+Proof. exact old_text_test_refuted. Qed.
+Print Assumptions c07_old_text_test_refuted.
+
+(* a replica answering with any result code other than invalidCredentials - whatever its diagnostic
+   text says - has not answered: the loop goes on to the next replica *)
+Theorem c07_other_code_no_verdict : forall c d, c <> 49%N -> verdict interp_code (RRefused c d) = None.
+Proof. exact other_code_no_verdict. Qed.
+Print Assumptions c07_other_code_no_verdict.
 
 (* ---- still false (known finding C07:evicted-password-accepted:primary-outage-at-eviction):
    "rejection of the cached password evicts the hash" cannot be carried out while the primary
